@@ -171,9 +171,10 @@ func VerifC25Offline() {
 	vDrain()
 	sub2 := vDial(s, vConnOpts{ver: sv, id: "sub", clean: false, keepalive: 60, seiSet: sv == 5, sei: 100000, rm: 5})
 	n := vCountPublishes(sub2, sv, "t")
-	if eff > 0 && dt > eff {
+	// (one second of slack: natively the publish may fall into the second after the one read as "now")
+	if eff > 0 && dt > eff+1 {
 		vAssert("expired-queued-message-is-not-delivered-on-reconnect", n == 0)
-	} else {
+	} else if eff == 0 || dt <= eff {
 		vAssert("unexpired-queued-message-is-delivered-on-reconnect", n == 1)
 	}
 	vReach("end")
